@@ -40,6 +40,10 @@ def unbits(l, shape=None):
     return a.reshape(shape) if shape is not None else a
 
 
+class DriverBuildError(RuntimeError):
+    pass
+
+
 _EXE = None
 
 
@@ -48,7 +52,7 @@ def driver_path():
     if _EXE is None:
         exe, err = leanstep.ensure_driver()
         if exe is None:
-            raise RuntimeError("driver build failed: " + err[-1500:])
+            raise DriverBuildError("driver build failed: " + err[-1500:])
         _EXE = exe
     return _EXE
 
@@ -275,14 +279,19 @@ def corr_rotator(seed, tier):
     R = Result("rotator")
     rng = np.random.default_rng(12000 + seed)
     reqs, exps = [], []
-    for i in range({"quick": 8, "thorough": 60, "search": 30}[tier]):
+    want = {"quick": 8, "thorough": 60, "search": 30}[tier]
+    cands = []
+    for i in range(5 * want):
         n, p = int(rng.integers(12, 30)), int(rng.integers(3, 7))
         k = int(rng.integers(2, p + 1))
         power = [1, 2, 1, 3][i % 4]
-        A = rng.normal(size=(n, p)) @ rng.normal(size=(p, p))
+        if i % 2:
+            # nearly flat spectrum: the rotation redistributes the variance, so the descending order is not the identity
+            A, _sp = matrix_with_spectrum(rng, n, p, "lin")
+            A = A * 10.0 + rng.normal(size=(n, p)) * 0.05
+        else:
+            A = rng.normal(size=(n, p)) @ rng.normal(size=(p, p))
         X = da2d(A, "time", "x")
-        R.tally("power", power)
-        R.tally("k_over_p", "full" if k == p else "truncated")
         try:
             with warnings.catch_warnings():
                 warnings.simplefilter("ignore")
@@ -291,6 +300,17 @@ def corr_rotator(seed, tier):
         except RuntimeError:
             R.tally("skipped", "rotation did not converge")
             continue
+        perm_id = list(rot.data["idx_modes_sorted"].values) == list(range(k))
+        mixed = len(set(np.sign(rot.data["modes_sign"].values))) > 1
+        cands.append((int(perm_id) + int(not mixed), i, n, p, k, power, A, X, eof, rot, perm_id, mixed))
+    # structured selection: cases where the order is permuted and the signs are mixed first (that is where the steps of
+    # `transform` do not commute); every choice still derives from the one seeded generator
+    cands.sort(key=lambda c: (c[0], c[1]))
+    for (_, i, n, p, k, power, A, X, eof, rot, perm_id, mixed) in cands[:want]:
+        R.tally("power", power)
+        R.tally("k_over_p", "full" if k == p else "truncated")
+        R.tally("order", "identity" if perm_id else "permuted")
+        R.tally("signs", "mixed" if mixed else "uniform")
         sn, fn = eof.sample_name, eof.feature_name
         comps0 = eof.data["components"].sel(mode=slice(1, k)).transpose(fn, "mode").values
         scores0 = eof.data["scores"].sel(mode=slice(1, k)).transpose(sn, "mode").values
@@ -1164,6 +1184,10 @@ def run_for(prop, seed, tier):
                 r = CORR[name](seed, tier)
             summ[name] = r.to_json()
             mism += r.mismatches
+        except DriverBuildError as e:
+            # the executable model no longer builds on the regenerated definitions: a broken tie, handled like a broken obligation
+            summ[name] = {"compared": 0, "mismatches": 1, "driver_build": "failed"}
+            mism.append({"correspondence": name, "what": "driver-build", "request": None, "model": str(e)[-1500:], "implementation": None})
         except Exception as e:  # noqa: BLE001  infrastructure, never a violation by itself
             import traceback
 
